@@ -308,6 +308,12 @@ func (fs *fuzzStore) build(q *fReq) *Req {
 			v = "99999999999"
 		case "over63":
 			v = "9223372036854775808"
+		case "max63":
+			v = "9223372036854775807"
+		case "min63":
+			v = "-9223372036854775808"
+		case "max31":
+			v = "2147483647"
 		case "unknown":
 			v = "does-not-exist"
 		case "weird":
